@@ -100,6 +100,22 @@ func properties() map[string]*PropertyDef {
 		LevelNote:   "assumed: URL.String is a function of field values; safety obligations (nil dereference on a typed-nil *url.Error) are outside this property; trusted: go/ssa lowering, govc encoding, solvers",
 		Technique:   "contract-based deductive verification (govc): two-state postconditions + frame obligations + self-composition lemma over the contract, WP over go/ssa, z3/cvc5",
 	})
+	ps = append(ps, &PropertyDef{
+		ID:          "C01",
+		Patterns:    []string{"./netutil", "./netutil/urlutil", "./hostsfile", "./stringutil", "./timeutil"},
+		Closure:     c01Closure,
+		Kinds:       map[string]bool{"bounds": true, "nil": true, "typeassert": true, "div": true, "panic": true, "variant": true, "requires": true, "invariant": true, "ensures": true},
+		RequireVars: true,
+		OnlySafe:    true,
+		Assumptions: []string{
+			"external (stdlib, x/net/idna) callees return normally on every input within their documented domain; user callbacks (hostsfile.Set.Add, HandleInvalid, predicates) return normally",
+			"only clauses labelled safe_* of in-module contracts are assumed at call sites and at loop cuts, so a change of which inputs are accepted does not affect this check, while a helper returning an out-of-range index does",
+		},
+		Explanation: "automatically generated safety obligations (index and slice bounds, nil dereference, failed type assertion, division by zero, reachable panic) and loop variants for every function reachable from the exported API of the anchored files; helper preconditions are proved at every call site",
+		LevelText:   "proof: every exported text-consuming function of the anchored files, and everything they reach in the module, is free of run-time panics and every non-range loop has a decreasing variant, for all inputs meeting the documented preconditions",
+		LevelNote:   "assumed: totality of external callees and callbacks (listed per run in evidence); trusted: go/ssa lowering, govc encoding, solvers",
+		Technique:   "contract-based deductive verification (govc): generated safety obligations + loop variants + thin (safe_*) contracts, WP over go/ssa, z3/cvc5",
+	})
 	out := map[string]*PropertyDef{}
 	for _, p := range ps {
 		out[p.ID] = p
